@@ -226,7 +226,13 @@ theorem stepClient_cases {P : G → Prop} (g : G) (c : Client) (f : Fault)
       P (finishCreate (afterCommit g r st f key rev (some val) .absent) c key val rev r))
     (hCreateOver : ∀ rev old key val r st, c.pc = .createOver rev old →
       doCommit g.cfg g.store [BOp.cas (idxKey key) (be8 rev) old, BOp.put (encode key rev) val] f = (r, st) →
-      P (finishCreate (afterCommit g r st f key rev (some val) .absent) c key val rev r))
+      P (match r with
+         | .conflict _ _ => (afterCommit g r st f key rev (some val) .absent).setClient { c with pc := .createRecheck rev }
+         | r' => finishCreate (afterCommit g r st f key rev (some val) .absent) c key val rev r'))
+    (hCreateRecheck : ∀ rev key val, c.pc = .createRecheck rev →
+      P (match g.store.get (idxKey key) with
+         | some _ => finishCreate g c key val rev (.conflict none none)
+         | none => g.setClient { c with pc := .createRetry rev }))
     (hUpdateCommit : ∀ rev key val exp r st, c.pc = .updateCommit rev → c.kind = .update key val exp →
       doCommit g.cfg g.store [BOp.cas (idxKey key) (be8 rev) (be8 exp), BOp.put (encode key rev) val] f = (r, st) →
       P (match r with
@@ -291,6 +297,7 @@ theorem stepClient_cases {P : G → Prop} (g : G) (c : Client) (f : Fault)
       obtain ⟨r, st⟩ := p
       have hL := hCreateOver _ _ _ _ r st ‹_› hdc
       cases r <;> simpa only [afterCommit] using hL
+  · cases kind <;> exact hCreateRecheck _ _ _ ‹_›
   · simp only []
     generalize hdc : doCommit g.cfg g.store _ f = p
     obtain ⟨r, st⟩ := p
@@ -351,7 +358,14 @@ theorem stepClient_noW (g : G) (c : Client) (f : Fault) : NoW g (stepClient g c 
   · intro rev key val r st _ hdc
     exact (NoW.afterCommit hdc key rev (some val) .absent).of_eq (finishCreate_store_wlog ..).1 (finishCreate_store_wlog ..).2
   · intro rev old key val r st _ hdc
-    exact (NoW.afterCommit hdc key rev (some val) .absent).of_eq (finishCreate_store_wlog ..).1 (finishCreate_store_wlog ..).2
+    have h := NoW.afterCommit hdc key rev (some val) .absent
+    split
+    · exact h.of_eq rfl rfl
+    · exact h.of_eq (finishCreate_store_wlog ..).1 (finishCreate_store_wlog ..).2
+  · intro rev key val _
+    split
+    · exact .inl (finishCreate_store_wlog ..)
+    · exact .inl ⟨rfl, rfl⟩
   · intro rev key val exp r st _ _ hdc
     have h := NoW.afterCommit hdc key rev (some val) (.rev exp)
     split <;> exact h.of_eq (by simp) (by simp)
@@ -780,6 +794,7 @@ def infl (c : Client) : Option Nat :=
   | .createReread r => some r
   | .createRetry r => some r
   | .createOver r _ => some r
+  | .createRecheck r => some r
   | .updateCommit r => some r
   | .deleteCommit r _ _ => some r
   | _ => none
@@ -794,6 +809,7 @@ def CInv (g0 : G) (dealt : Nat) (wlog : List WLog) (c : Client) : Prop :=
   | .createReread r => Fresh g0 dealt wlog r
   | .createRetry r => Fresh g0 dealt wlog r
   | .createOver r old => Fresh g0 dealt wlog r ∧ ∃ p, parseRevision old = some (p, true) ∧ p < r
+  | .createRecheck r => Fresh g0 dealt wlog r
   | .updateCommit r => Fresh g0 dealt wlog r ∧ ∀ k v e, c.kind = .update k v e → e ≤ r
   | .deleteDeal none => True
   | .deleteDeal (some (_, m)) => m ≤ dealt
@@ -820,6 +836,7 @@ theorem CInv.fresh {g0 : G} {d : Nat} {wl : List WLog} {c : Client} (h : CInv g0
   | createCommit r' => simp only [hpc, Option.some.injEq] at hr; simp only [CInv, hpc] at h; exact hr ▸ h
   | createReread r' => simp only [hpc, Option.some.injEq] at hr; simp only [CInv, hpc] at h; exact hr ▸ h
   | createRetry r' => simp only [hpc, Option.some.injEq] at hr; simp only [CInv, hpc] at h; exact hr ▸ h
+  | createRecheck r' => simp only [hpc, Option.some.injEq] at hr; simp only [CInv, hpc] at h; exact hr ▸ h
   | createOver r' _ => simp only [hpc, Option.some.injEq] at hr; simp only [CInv, hpc] at h; exact hr ▸ h.1
   | updateCommit r' => simp only [hpc, Option.some.injEq] at hr; simp only [CInv, hpc] at h; exact hr ▸ h.1
   | deleteCommit r' _ _ => simp only [hpc, Option.some.injEq] at hr; simp only [CInv, hpc] at h; exact hr ▸ h.1
@@ -835,6 +852,7 @@ theorem CInv.mono {g0 : G} {d d' : Nat} {wl : List WLog} {c : Client} (h : CInv 
   | createCommit r' => simp only [CInv, hpc] at h ⊢; exact h.mono hd
   | createReread r' => simp only [CInv, hpc] at h ⊢; exact h.mono hd
   | createRetry r' => simp only [CInv, hpc] at h ⊢; exact h.mono hd
+  | createRecheck r' => simp only [CInv, hpc] at h ⊢; exact h.mono hd
   | createOver r' _ => simp only [CInv, hpc] at h ⊢; exact ⟨h.1.mono hd, h.2⟩
   | updateCommit r' => simp only [CInv, hpc] at h ⊢; exact ⟨h.1.mono hd, h.2⟩
   | deleteCommit r' _ _ => simp only [CInv, hpc] at h ⊢; exact ⟨h.1.mono hd, h.2⟩
@@ -855,6 +873,9 @@ theorem CInv.log {g0 : G} {d : Nat} {wl : List WLog} {c : Client} (h : CInv g0 d
     simp only [hpc, ne_eq, Option.some.injEq] at hw; simp only [CInv, hpc] at h ⊢
     exact h.log (fun e => hw e.symm)
   | createRetry r' =>
+    simp only [hpc, ne_eq, Option.some.injEq] at hw; simp only [CInv, hpc] at h ⊢
+    exact h.log (fun e => hw e.symm)
+  | createRecheck r' =>
     simp only [hpc, ne_eq, Option.some.injEq] at hw; simp only [CInv, hpc] at h ⊢
     exact h.log (fun e => hw e.symm)
   | createOver r' _ =>
@@ -1175,6 +1196,7 @@ theorem SInv.stepClient {g0 g : G} (h0 : G0OK g0) (h : SInv g0 g) {c : Client} (
   · -- createOver
     intro rev old key val r st hpc hdc
     have hinfl : infl c = some rev := by simp [infl, hpc]
+    have hf := hci.fresh hinfl
     simp only [CInv, hpc] at hci
     obtain ⟨_, p, hp, hlt⟩ := hci
     have hA := h.commitE hc hinfl (r := r) (st := st) (f := f) (key := key) (val := some val) (exp := .absent)
@@ -1182,7 +1204,21 @@ theorem SInv.stepClient {g0 g : G} (h0 : G0OK g0) (h : SInv g0 g) {c : Client} (
         rcases doCommit_cas_cases hdc with ⟨ha, hget, hst⟩ | hn
         · exact .inl ⟨ha, hst, fun hb => chainCond_over h.core hb rev (some val) hget hp hlt⟩
         · exact .inr hn)
-    exact hA.finishCreate ..
+    split
+    · rw [afterCommit_conflict] at hA ⊢
+      refine SInvE.set (c' := { c with pc := .createRecheck rev }) hA ?_ ?_
+      · simp only [CInv]; exact hf
+      · intro r' hr; simp only [infl, Option.some.injEq] at hr; subst hr; exact h.cl.others_ne hc hinfl
+    · exact hA.finishCreate ..
+  · -- createRecheck
+    intro rev key val hpc
+    have hinfl : infl c = some rev := by simp [infl, hpc]
+    have hf := hci.fresh hinfl
+    split
+    · exact hE.finishCreate ..
+    · refine SInvE.set (c' := { c with pc := .createRetry rev }) hE ?_ ?_
+      · simp only [CInv]; exact hf
+      · intro r' hr; simp only [infl, Option.some.injEq] at hr; subst hr; exact h.cl.others_ne hc hinfl
   · -- updateCommit
     intro rev key val exp r st hpc hk hdc
     have hinfl : infl c = some rev := by simp [infl, hpc]
